@@ -38,7 +38,9 @@ func init() {
 		Run:      func(c *Ctx) { ruleErr11(c, nil) }})
 	Register(&Rule{ID: "R-ERR-11", Props: []string{"C07"}, Floor: 4,
 		Doc: "R-ERR-11 restricted to lib/query.(*View).Limit and (*View).Offset: the user-supplied LIMIT / OFFSET numbers (incl. PERCENT, negatives, values beyond the row count) are in range where they cut the record set",
-		Run: func(c *Ctx) { ruleErr11(c, e19InFuncs("lib/query.(*View).Limit", "lib/query.(*View).Offset")) }})
+		Run: func(c *Ctx) {
+			ruleErr11(c, e19InFuncsOrHelpers(c, "lib/query.(*View).Limit", "lib/query.(*View).Offset"))
+		}})
 }
 
 // fields whose length equals another field's of the same struct (frozen premise).
@@ -50,6 +52,55 @@ type e19Term struct {
 	val   ssa.Value // target value, or nil for "len(base)"
 	base  ssa.Value
 	minus ssa.Value // target is (val|len base) - minus
+	// len of field fkey of the struct obj points to (a len term carried across a
+	// call boundary, where no load of the field need exist); used when val and base are nil
+	obj  ssa.Value
+	fkey string
+}
+
+// e19ObjField: the (object, canonical field) a container value is loaded from.
+func e19ObjField(base ssa.Value) (ssa.Value, string, bool) {
+	ld, ok := base.(*ssa.UnOp)
+	if !ok || ld.Op != token.MUL {
+		return nil, "", false
+	}
+	fa, ok := ld.X.(*ssa.FieldAddr)
+	if !ok {
+		return nil, "", false
+	}
+	return fa.X, e19CanonField(e19FieldKey(fa)), true
+}
+
+// e19DenotesLenOf: x is len(obj.f) — builtin len of a load of that field of the
+// same object, or a len getter on the object.
+func e19DenotesLenOf(x ssa.Value, obj ssa.Value, fkey string) bool {
+	call, ok := x.(*ssa.Call)
+	if !ok {
+		return false
+	}
+	if b, ok := call.Common().Value.(*ssa.Builtin); ok {
+		if b.Name() != "len" {
+			return false
+		}
+		o2, k2, ok := e19ObjField(call.Common().Args[0])
+		return ok && k2 == fkey && core.SameVal(o2, obj)
+	}
+	key, ok := e19LenGetter(call.Common().StaticCallee(), 0)
+	return ok && e19CanonField(key) == fkey && core.SameVal(call.Common().Args[0], obj)
+}
+
+// e19ParamIndex: index of parameter p in its function, or -1.
+func e19ParamIndex(v ssa.Value) (*ssa.Parameter, int) {
+	p, ok := v.(*ssa.Parameter)
+	if !ok {
+		return nil, -1
+	}
+	for i, q := range p.Parent().Params {
+		if q == p {
+			return p, i
+		}
+	}
+	return nil, -1
 }
 
 type e19BusyKey struct {
@@ -158,12 +209,30 @@ func (p *e19Prover) matches(x ssa.Value, t e19Term) bool {
 		if !ok || b.Op != token.SUB || !core.SameVal(b.Y, t.minus) {
 			return false
 		}
-		return p.matches(b.X, e19Term{val: t.val, base: t.base})
+		return p.matches(b.X, e19Term{val: t.val, base: t.base, obj: t.obj, fkey: t.fkey})
 	}
 	if t.val != nil {
 		return core.SameVal(x, t.val)
 	}
+	if t.base == nil {
+		return e19DenotesLenOf(x, t.obj, t.fkey)
+	}
 	return e19DenotesLen(x, t.base)
+}
+
+// objTerm rewrites a len(base) term as "len of field of object" when base is a field load.
+func (t e19Term) objTerm() (e19Term, bool) {
+	if t.val != nil || t.minus != nil {
+		return t, false
+	}
+	if t.base == nil {
+		return t, t.obj != nil
+	}
+	o, k, ok := e19ObjField(t.base)
+	if !ok {
+		return t, false
+	}
+	return e19Term{obj: o, fkey: k}, true
 }
 
 func e19LastInstr(b *ssa.BasicBlock) ssa.Instruction { return b.Instrs[len(b.Instrs)-1] }
@@ -183,6 +252,8 @@ func (p *e19Prover) le(v ssa.Value, t e19Term, strict bool, facts []core.Fact, a
 		tv := ""
 		if t.base != nil {
 			tv = "len(" + t.base.Name() + ")"
+		} else if t.obj != nil {
+			tv = "len(" + t.obj.Name() + "." + t.fkey + ")"
 		}
 		if t.val != nil {
 			tv = t.val.Name() + "=" + t.val.String()
@@ -221,7 +292,7 @@ func (p *e19Prover) le1(v ssa.Value, t e19Term, strict bool, facts []core.Fact, 
 		}
 	}
 	// 2. intervals
-	if t.minus == nil {
+	if t.minus == nil && (t.val != nil || t.base != nil) {
 		a := p.e.Eval(v, at, core.KInt)
 		var tl core.AV
 		if t.val != nil {
@@ -275,6 +346,92 @@ func (p *e19Prover) le1(v ssa.Value, t e19Term, strict bool, facts []core.Fact, 
 		}
 		if p.le(o, t, need, core.FactsAt(f.If.Block()), f.If, d+1) {
 			return true
+		}
+	}
+	// 3b. across a call boundary: a helper's parameter is bounded if every caller's
+	// argument is (the term is re-expressed in the caller: len of the same field of
+	// the object the caller passes); a helper's result is bounded if every return is.
+	if ot, ok := t.objTerm(); ok && d < 8 {
+		if pv, pi := e19ParamIndex(v); pv != nil {
+			if _, oi := e19ParamIndex(ot.obj); oi >= 0 && ot.obj.Parent() == pv.Parent() {
+				fn := pv.Parent()
+				edges := p.c.P.Callers(fn)
+				okAll := len(edges) > 0 && len(edges) <= 8 && fn.Parent() == nil
+				for _, ed := range edges {
+					if !okAll {
+						break
+					}
+					if ed.Caller.Func != nil && ed.Caller.Func.Synthetic != "" {
+						continue
+					}
+					site, isCall := ed.Site.(*ssa.Call)
+					if !isCall || site.Common().StaticCallee() != fn || len(site.Common().Args) != len(fn.Params) {
+						okAll = false
+						break
+					}
+					ct := e19Term{obj: site.Common().Args[oi], fkey: ot.fkey}
+					if !p.le(site.Common().Args[pi], ct, strict, core.FactsAt(site.Block()), site, d+1) {
+						okAll = false
+					}
+				}
+				if okAll {
+					return true
+				}
+			}
+		}
+		var call *ssa.Call
+		idx := 0
+		switch x := v.(type) {
+		case *ssa.Call:
+			call = x
+		case *ssa.Extract:
+			if c2, ok := x.Tuple.(*ssa.Call); ok {
+				call, idx = c2, x.Index
+			}
+		}
+		if call != nil {
+			if f := call.Common().StaticCallee(); f != nil && f.Blocks != nil && p.c.P.Name(f) != f.String() && len(call.Common().Args) == len(f.Params) {
+				oi := -1
+				for i, a := range call.Common().Args {
+					if core.SameVal(a, ot.obj) {
+						oi = i
+					}
+				}
+				if oi >= 0 {
+					ct := e19Term{obj: f.Params[oi], fkey: ot.fkey}
+					okAll, n := true, 0
+					for _, ret := range core.Returns(f) {
+						if idx >= len(ret.Results) {
+							okAll = false
+							break
+						}
+						// error returns carry no usable value
+						if ei := core.ErrorResultIndex(f); ei >= 0 && ei != idx {
+							isErr := false
+							for _, ev := range core.ReturnOperand(ret, ei) {
+								if ev != nil && core.ClassifyNil(ev, ret) == core.NonNil {
+									isErr = true
+								}
+							}
+							if isErr {
+								continue
+							}
+						}
+						for _, rv := range core.ReturnOperand(ret, idx) {
+							n++
+							if rv == nil {
+								continue // zero
+							}
+							if !p.le(rv, ct, strict, core.FactsAt(ret.Block()), ret, d+1) {
+								okAll = false
+							}
+						}
+					}
+					if okAll && n > 0 {
+						return true
+					}
+				}
+			}
 		}
 	}
 	switch x := v.(type) {
@@ -426,32 +583,60 @@ var err11Exceptions = []e19TaintException{
 		}},
 	{"lib/query.execStringsPadding", "the padding is strings.Repeat(padstr, ceil(padLen/padstrLen)) with padstrLen the rune count of padstr, so it has at least padLen runes",
 		func(c *Ctx, e *core.Bounds, in ssa.Instruction, base, operand ssa.Value) (bool, string) {
-			// base = []rune(strings.Repeat(_, int(math.Ceil(float64(operand) / _))))
+			// base = []rune(strings.Repeat(_, int(math.Ceil(float64(operand) / _)))); the string and
+			// the bound may reach a helper as parameters: then every caller must have that shape
 			cv, ok := base.(*ssa.Convert)
 			if !ok {
 				return false, "the sliced value is not a []rune conversion"
 			}
-			for _, o := range core.Origins(cv.X, false) {
-				call, ok := o.(*ssa.Call)
-				if !ok || c.P.CalleeName(call) != "strings.Repeat" {
-					return false, "the converted string is not the result of strings.Repeat"
+			var shape func(str, bound ssa.Value, d int) (bool, string)
+			shape = func(str, bound ssa.Value, d int) (bool, string) {
+				for _, o := range core.Origins(str, false) {
+					if sp, si := e19ParamIndex(o); sp != nil && d < 3 {
+						bp, bi := e19ParamIndex(bound)
+						if bp == nil || bp.Parent() != sp.Parent() {
+							return false, "the string is a parameter but the bound is not"
+						}
+						edges := c.P.Callers(sp.Parent())
+						if len(edges) == 0 || len(edges) > 4 {
+							return false, "the helper has no or too many callers"
+						}
+						for _, ed := range edges {
+							site, isCall := ed.Site.(*ssa.Call)
+							if !isCall || site.Common().StaticCallee() != sp.Parent() || len(site.Common().Args) != len(sp.Parent().Params) {
+								return false, "dynamic call of the helper"
+							}
+							if ok, why := shape(site.Common().Args[si], site.Common().Args[bi], d+1); !ok {
+								return false, why
+							}
+						}
+						continue
+					}
+					call, ok := o.(*ssa.Call)
+					if !ok || c.P.CalleeName(call) != "strings.Repeat" {
+						return false, "the converted string is not the result of strings.Repeat"
+					}
+					n, ok := call.Common().Args[1].(*ssa.Convert)
+					if !ok {
+						return false, "Repeat count is not int(...)"
+					}
+					ceil, ok := n.X.(*ssa.Call)
+					if !ok || c.P.CalleeName(ceil) != "math.Ceil" {
+						return false, "Repeat count is not int(math.Ceil(...))"
+					}
+					q, ok := ceil.Common().Args[0].(*ssa.BinOp)
+					if !ok || q.Op != token.QUO {
+						return false, "Repeat count is not a rounded-up quotient"
+					}
+					num, ok := q.X.(*ssa.Convert)
+					if !ok || !core.SameVal(num.X, bound) {
+						return false, "the quotient's numerator is not the slice bound"
+					}
 				}
-				n, ok := call.Common().Args[1].(*ssa.Convert)
-				if !ok {
-					return false, "Repeat count is not int(...)"
-				}
-				ceil, ok := n.X.(*ssa.Call)
-				if !ok || c.P.CalleeName(ceil) != "math.Ceil" {
-					return false, "Repeat count is not int(math.Ceil(...))"
-				}
-				q, ok := ceil.Common().Args[0].(*ssa.BinOp)
-				if !ok || q.Op != token.QUO {
-					return false, "Repeat count is not a rounded-up quotient"
-				}
-				num, ok := q.X.(*ssa.Convert)
-				if !ok || !core.SameVal(num.X, operand) {
-					return false, "the quotient's numerator is not the slice bound"
-				}
+				return true, ""
+			}
+			if ok, why := shape(cv.X, operand, 0); !ok {
+				return false, why
 			}
 			return true, "sliced value is []rune(strings.Repeat(_, int(math.Ceil(float64(bound)/_))))"
 		}},
